@@ -48,7 +48,7 @@ type pState struct {
 	delayRC          <-chan struct{}
 	manualRC         <-chan interface{}
 	shutdownNotifier chan<- interface{}
-	queueBars        map[*Bar]*Bar
+	queueBars        map[*Bar][]*Bar
 	output           io.Writer
 	debugOut         io.Writer
 	uwg              *sync.WaitGroup
@@ -75,7 +75,7 @@ func NewWithContext(ctx context.Context, options ...ContainerOption) *Progress {
 		renderReq:   make(chan time.Time),
 		popPriority: math.MinInt32,
 		refreshRate: defaultRefreshRate,
-		queueBars:   make(map[*Bar]*Bar),
+		queueBars:   make(map[*Bar][]*Bar),
 		output:      os.Stdout,
 		debugOut:    io.Discard,
 	}
@@ -162,7 +162,7 @@ func (p *Progress) Add(total int64, filler BarFiller, options ...BarOption) (*Ba
 		bs := ps.makeBarState(total, filler, options...)
 		bar := newBar(ps.ctx, p, bs)
 		if bs.waitBar != nil {
-			ps.queueBars[bs.waitBar] = bar
+			ps.queueBars[bs.waitBar] = append(ps.queueBars[bs.waitBar], bar)
 		} else {
 			ps.hm.push(bar, true)
 		}
@@ -406,10 +406,12 @@ func (s *pState) flush(cw *cwriter.Writer, height int, iter <-chan *Bar) error {
 		switch frame.shutdown {
 		case 1:
 			b.cancel()
-			if qb, ok := s.queueBars[b]; ok {
+			if queue, ok := s.queueBars[b]; ok {
 				delete(s.queueBars, b)
-				qb.priority = b.priority
-				pending = append(pending, pushData{qb, true})
+				for _, qb := range queue {
+					qb.priority = b.priority
+					pending = append(pending, pushData{qb, true})
+				}
 			} else if s.popCompleted && !frame.noPop {
 				b.priority = s.popPriority
 				b.popped = true
